@@ -63,6 +63,9 @@ def harness_list(tier):
         ("H4/T23/2step", [("T23", "A", b"pw1", 3, 1), ("T23", "B", b"pw1", 5, 0), ("T23'", "A", b"pw2", 6, 3), ("T23'", "B", b"pw2", 2, 2)], 2),
         ("H4=/T23/2step", [("T23", "A", b"pw1", 3, 1), ("T23", "B", b"pw1", 5, 0), ("T23", "A", b"pw2", 6, 3), ("T23", "B", b"pw2", 2, 2)], 2),
         ("H4'/T23+T29/2step", [("T23", "A", b"pw1", 3, 1), ("T23", "B", b"pw1", 5, 0), ("T29", "A", b"pw2", 6, 3), ("T29", "B", b"pw2", 2, 2)], 2),
+        # entropy streams whose first draw is rejected (negative scalar = "one rejected draw, then this scalar")
+        ("H3redraw/T23/2step", [("T23", "A", b"pw1", -3, 1), ("T23", "B", b"pw1", -5, 0), ("T23'", "S", b"pw2", -7, None)], 2),
+        ("H2redraw/Params1024/2step", [("Params1024", "A", b"pw1", -3, 1), ("Params1024", "B", b"pw1", 5, 0)], 2),
         # forced collisions: sessions that differ in exactly one thing
         ("H4seeds/T23/2step", [("T23", "A", b"pw1", 3, 1), ("T23", "B", b"pw1", 5, 0), ("T23'", "A", b"pw1", 3, 3), ("T23'", "B", b"pw1", 5, 2)], 2),
         ("H4scalar/T23/2step", [("T23", "A", b"pw1", 3, 1), ("T23", "B", b"pw1", 5, 0), ("T23", "A", b"pw1", 4, 3), ("T23", "B", b"pw1", 6, 2)], 2),
@@ -82,7 +85,7 @@ def harness_list(tier):
 
 
 class Sess:
-    __slots__ = ("key", "inst", "side", "pw", "x", "peer", "ids", "prog", "obj", "pc", "out", "blob", "pre")
+    __slots__ = ("key", "inst", "side", "pw", "x", "peer", "ids", "prog", "obj", "pc", "out", "blob", "pre", "redraw")
 
 
 class Harness:
@@ -97,7 +100,8 @@ class Harness:
         ss = []
         for i, (key, side, pw, x, peer) in enumerate(self.specs):
             s = Sess()
-            s.key, s.inst, s.side, s.pw, s.x, s.peer = key, pinst(key), side, pw, x % pinst(key).q, peer
+            s.key, s.inst, s.side, s.pw, s.x, s.peer = key, pinst(key), side, pw, abs(x) % pinst(key).q, peer
+            s.redraw = x < 0 and pinst(key).kind == "int"
             s.ids = C.ids_for(side, i + 1)
             s.prog, s.obj, s.pc, s.out, s.blob = self.prog, None, 0, [], None
             if peer is None:
@@ -123,7 +127,12 @@ class Harness:
         op = s.prog[s.pc]
         s.pc += 1
         if op == "start":
-            s.obj = s.inst.new(s.side, s.pw, s.ids, s.x)
+            if s.redraw:
+                R = s.inst.ref
+                ent = T.Script([b"\xff" * R.ssize] + R.entropy_for_scalar(s.x))
+                s.obj = s.inst.new(s.side, s.pw, s.ids, entropy=ent)
+            else:
+                s.obj = s.inst.new(s.side, s.pw, s.ids, s.x)
             o = T.observe(s.obj.start)
         elif op == "serialize":
             o = T.observe(s.obj.serialize)
@@ -480,6 +489,8 @@ THREAD_HARNESSES = {
     "TH/T23+T23'": [("T23", "B", b"pw1", 9), ("T23'", "B", b"pw1", 9)],
     "TH/T509+T23": [("T509", "A", b"pw1", 100), ("T23", "A", b"pw2", 6)],
     "TH/E37": [("E37", "A", b"pw1", 3), ("E37", "S", b"pw2", 1)],
+    "TH3/T23-three-sessions": [("T23", "A", b"pw1", 3), ("T23", "B", b"pw2", 6), ("T23", "A", b"pw2", 4)],
+    "TH3/T23-S": [("T23", "S", b"pw1", 3), ("T23", "S", b"pw2", 6), ("T23", "S", b"pw1", 4)],
 }
 
 
@@ -526,7 +537,7 @@ def _thread_task(task):
         if res != exp:
             pre = sum(1 for c, (n, re) in zip(run.choices, run.points) if re and c != 0)
             acc.violation("C16/threads/%s/differs-from-isolated-run" % hname.split("/")[1],
-                          {"what": "a 2-thread schedule with %d preemption(s) makes a session's message/key differ from its isolated run" % pre,
+                          {"what": "a %d-thread schedule with %d preemption(s) makes a session's message/key differ from its isolated run" % (len(res), pre),
                            "replay": {"fn": "schedule", "harness": hname, "choices": list(run.choices)}, "expected": exp, "observed": res})
 
     n = 0
@@ -545,11 +556,13 @@ def _thread_task(task):
 
 def run_threads(acc, tier):
     bound = 1 if tier == "quick" else 2
-    names = ["TH/T23-same-params", "TH/T23-S-S", "TH/T23+T29", "TH/T23+T23'"] + ([] if tier == "quick" else ["TH/T509+T23", "TH/E37"])
-    roots = core.pmap(_thread_root_task, [(n, bound if not (n == "TH/E37") else 1) for n in names])
+    names = ["TH/T23-same-params", "TH/T23-S-S", "TH/T23+T29", "TH/T23+T23'", "TH3/T23-three-sessions"] + \
+            ([] if tier == "quick" else ["TH/T509+T23", "TH/E37", "TH3/T23-S"])
+    b1 = lambda n: 1 if (n == "TH/E37" or n.startswith("TH3/")) else bound
+    roots = core.pmap(_thread_root_task, [(n, b1(n)) for n in names])
     jobs = []
     for hname, res, alts, npoints in roots:
-        b = bound if hname != "TH/E37" else 1
+        b = b1(hname)
         exp = thread_expected(hname)
         acc.n(traces=1, states=1, transitions=npoints)
         acc.extra.setdefault("threads", {})[hname] = {"scheduling_points_default_schedule": npoints, "preemption_bound": b, "first_level_alternatives": len(alts)}
